@@ -111,8 +111,15 @@ Definition format_fat32_root (b : fbpb) (im : image)
   do fat32_root_dir_first_sector <- u32_add first_data_sector data_sectors_before_root_dir;
   do cluster_size <- u32_mul (fb_sectors_per_cluster b) bps;
   let im1 := write_zeros (fs_img s1) (fat32_root_dir_first_sector * bps) cluster_size in
+  (* unusable_clusters = (bpb.total_clusters() + RESERVED_FAT_ENTRIES).saturating_sub(0x0FFF_FFF0): the addition is a
+     checked u32 addition, the subtraction saturates at 0 (N subtraction) *)
+  do total_clusters_a <- fb_total_clusters b;
+  do end_cluster <- u32_add total_clusters_a RESERVED_FAT_ENTRIES;
+  let unusable_clusters := end_cluster - BAD_RANGE_START in
+  (* free_cluster_count = bpb.total_clusters() - 1 - unusable_clusters: two checked u32 subtractions *)
   do total_clusters <- fb_total_clusters b;
-  do free_cluster_count <- u32_sub total_clusters 1;
+  do all_but_root <- u32_sub total_clusters 1;
+  do free_cluster_count <- u32_sub all_but_root unusable_clusters;
   do next_free <- u32_add root_dir_first_cluster 1;
   let fsi_pos := fb_fs_info_sector b * bps in
   let fsi := fsinfo_bytes free_cluster_count next_free in
